@@ -101,6 +101,48 @@ theorem lideal_equals_correct (p : ℤ) (I1 I2 : LeftIdeal) (h1 : I1.lattice.den
     lidealEquals I1 I2 = true ↔ I1.order = I2.order ∧ I1.norm = I2.norm ∧ hLat p I1.lattice = hLat p I2.lattice :=
   lidealEquals_iff p I1 I2 h1 h2 hn1 hn2
 
+/-- `quat_alg_make_primitive` (used by `make_primitive_then_create`): for x in the order (membership flag 1),
+    `x = content · (primitive part)` in `H p` -/
+theorem make_primitive_value (p : ℤ) (O : Lattice) (x : Elem) (hO : O.denom ≠ 0) (hx : x.denom ≠ 0)
+    (h : (latContains O x).1 = true) :
+    val p x = ((makePrimitive O x).2 : ℤ) • val p ⟨O.denom, O.basis.eval (makePrimitive O x).1⟩ :=
+  makePrimitive_val p O x hO hx h
+
+/-- two ideals whose lattices are in canonical form (HNF, reduced) denote the same lattice iff their bases are
+    identical and their denominators agree up to sign -/
+theorem ideal_lattice_canonical (p : ℤ) (l1 l2 : Lattice) (h1 : l1.denom ≠ 0) (h2 : l2.denom ≠ 0)
+    (hn1 : IsHNF l1.basis) (hn2 : IsHNF l2.basis) (r1 : Reduced l1) (r2 : Reduced l2)
+    (h : hLat p l1 = hLat p l2) : l1.basis = l2.basis ∧ l1.denom.natAbs = l2.denom.natAbs := by
+  apply lattice_repr_unique l1 l2 h1 h2 hn1 hn2 r1 r2
+  rw [hLat_eq_map, hLat_eq_map] at h
+  exact Submodule.map_injective_of_injective (toH_injective p) h
+
+/-- `quat_connecting_ideal`: the lattice is `O₁·N + Σ_i O₁·(N·b_i)` with `N = [O₁ : O₁ ∩ O₂]` (as computed by
+    `quat_lattice_index`) and `b_i` the basis vectors of `O₂` -/
+theorem connecting_ideal_lattice (p : ℤ) (O1 O2 : Lattice) (prev : ℤ) (h1 : O1.denom ≠ 0) (h2 : O2.denom ≠ 0) :
+    let N := latIndex (latIntersect O1 O2) O1
+    let b (i : Nat) : Elem := ⟨O2.denom, (O2.basis.scalarMul N).col i⟩
+    hLat p (connectingIdeal p O1 O2 prev).lattice =
+      hLat p O1 * Submodule.span ℤ {val p (algScalar N 1)} ⊔ hLat p O1 * Submodule.span ℤ {val p (b 0)} ⊔
+      hLat p O1 * Submodule.span ℤ {val p (b 1)} ⊔ hLat p O1 * Submodule.span ℤ {val p (b 2)} ⊔
+      hLat p O1 * Submodule.span ℤ {val p (b 3)} ∧
+    (connectingIdeal p O1 O2 prev).order = O1 := by
+  intro N b
+  have hs : (algScalar N 1).denom ≠ 0 := by simp [algScalar]
+  have hb : ∀ i, (b i).denom ≠ 0 := fun i => h2
+  obtain ⟨e0, d0⟩ := principalLattice_spec p (algScalar N 1) O1 h1 hs
+  have eb := fun i => principalLattice_spec p (b i) O1 h1 (hb i)
+  refine ⟨?_, rfl⟩
+  have hl : (connectingIdeal p O1 O2 prev).lattice =
+      latAdd (latAdd (latAdd (latAdd (principalLattice p (algScalar N 1) O1) (principalLattice p (b 0) O1))
+        (principalLattice p (b 1) O1)) (principalLattice p (b 2) O1)) (principalLattice p (b 3) O1) := rfl
+  rw [hl]
+  have a1 := latAdd_spec (principalLattice p (algScalar N 1) O1) (principalLattice p (b 0) O1) d0 (eb 0).2
+  have a2 := latAdd_spec _ (principalLattice p (b 1) O1) a1.2 (eb 1).2
+  have a3 := latAdd_spec _ (principalLattice p (b 2) O1) a2.2 (eb 2).2
+  rw [hLat_add p _ _ a3.2 (eb 3).2, hLat_add p _ _ a2.2 (eb 2).2, hLat_add p _ _ a1.2 (eb 1).2,
+    hLat_add p _ _ d0 (eb 0).2, e0, (eb 0).1, (eb 1).1, (eb 2).1, (eb 3).1]
+
 /-! ## Generators and products -/
 
 /-- `quat_lideal_generator_coprime` is sound: a reported generator is a primitive integer combination of the basis, lies
